@@ -37,8 +37,8 @@ ASSUMPTIONS = [
     "nested failure reports (an observer failing while receiving a failure report) are not judged",
     "events without a level or a namespace are not judged by the filter part",
 ]
-MIN = {"quick": {"evaluations": 400000, "nontrivial": 100000, "outcomes": 12},
-       "thorough": {"evaluations": 3000000, "nontrivial": 800000, "outcomes": 12}}
+MIN = {"quick": {"evaluations": 550000, "nontrivial": 490000, "outcomes": 9},
+       "thorough": {"evaluations": 2500000, "nontrivial": 2300000, "outcomes": 9}}
 
 CALL_CAP = 100
 BEH = ["ok", "raise-ev", "raise-all", "oneshot"]
